@@ -70,6 +70,7 @@ class Engine:
         self.depth = 0
         self.call_stack = []
         self.frame_writes = None
+        self.store_eqs = []
         self.gen_state = None
         self._objs = {}
         self.nalloc = 0
